@@ -276,7 +276,7 @@ def _(c, a): return oP([1, 1j, -1, -1j][c] * P(a))
 def _(a): return oP(-P(a))
 @op('combine')
 def _(n, C, rows):
-    l = PL(rows, width=2 * n)
+    l = RCV(PL(rows, width=2 * n))
     gs, ps = U.pauli_combine(GS(C, len(rows)), l.gs, l.ps)
     return [[[int(v) for v in g], int(p)] for g, p in zip(gs, ps)]
 @op('transform')
@@ -325,12 +325,12 @@ def _(big, small, m): return oPL(RCV(CM(big)).embed(CM(small), MASK(m)))
 def _(gen): return oPL(ST.clifford_rotation_map(P(gen)))
 @op('map_to_state')
 def _(m):
-    c = CM(m)
+    c = RCV(CM(m))
     gs, ps = U.map_to_state(c.gs, c.ps)
     return [[[int(v) for v in g], int(p)] for g, p in zip(gs, ps)]
 @op('state_to_map')
 def _(m):
-    c = CM(m)
+    c = RCV(CM(m))
     gs, ps = U.state_to_map(c.gs, c.ps)
     return [[[int(v) for v in g], int(p)] for g, p in zip(gs, ps)]
 @op('expect')
@@ -339,13 +339,13 @@ def _(t, obs):
     return [int(v) for v in s.expect(PL(obs, width=s.gs.shape[1]))]
 @op('project')
 def _(t, gos):
-    s = STATE(t)
+    s = RCV(STATE(t))
     gs, r = U.stabilizer_project(s.gs, GS(gos, s.gs.shape[1]), s.r)
     s.gs, s.r = gs, r
     return oST(s)
 @op('projection_trace')
 def _(t, obs):
-    s = STATE(t)
+    s = RCV(STATE(t))
     o = PL(obs, width=s.gs.shape[1])
     gs, ps, r, tr = U.stabilizer_projection_trace(s.gs, s.ps, o.gs, o.ps, s.r)
     s.gs, s.ps, s.r = gs, ps, r
@@ -355,7 +355,7 @@ def _(t, obs):
     return [oST(s), 0, h]
 @op('postselect')
 def _(t, o):
-    s = STATE(t)
+    s = RCV(STATE(t))
     gs, ps, prob = U.stabilizer_postselection(s.gs, s.ps, G(o[0]), int(o[1]))
     s.gs, s.ps = gs, ps
     return [oST(s), int(round(2 * prob))]
